@@ -80,7 +80,7 @@ def modehist(h):
                 elif kind == "ofb":
                     m = pyaes_aes.AESModeOfOperationOFB(k, ivb)
                 else:
-                    m = pyaes_aes.AESModeOfOperationCTR(k, pyaes_aes.Counter(int(ctr)))
+                    m = _ctr_mode(k, int(ctr))
                 modes[int(slot)] = m
                 outs.append("-")
             elif t[0] in ("enc", "dec"):
@@ -192,7 +192,7 @@ def prop_aesmode(kind, k, iv, ctr, seg, d, cuts, direction):
     elif kind == "ofb":
         m = pyaes_aes.AESModeOfOperationOFB(key, ivb)
     else:
-        m = pyaes_aes.AESModeOfOperationCTR(key, pyaes_aes.Counter(ctr))
+        m = _ctr_mode(key, ctr)
     # chunk boundaries: multiples of the unit; ECB/CBC take exactly one block per call
     if kind in ("ecb", "cbc"):
         bounds = list(range(0, len(data) + 1, 16))
@@ -207,6 +207,14 @@ def prop_aesmode(kind, k, iv, ctr, seg, d, cuts, direction):
         n = next(i for i, (x, y) in enumerate(zip(got, want)) if x != y) if len(got) == len(want) else min(len(got), len(want))
         return f"FAIL {kind} {direction} differs from SP 800-38A at byte {n} (counter {ctr:#x}, {len(data)} bytes, chunks at {bounds})"
     return "ok"
+
+
+def _ctr_mode(key, ctr):
+    """a counter that starts at 1 is what the constructor uses when none is given: built without the argument then, so
+    that the default is exercised (several such objects per process - each must start at 1)"""
+    if ctr == 1:
+        return pyaes_aes.AESModeOfOperationCTR(key)
+    return pyaes_aes.AESModeOfOperationCTR(key, pyaes_aes.Counter(ctr))
 
 
 @op("ms")
@@ -225,7 +233,7 @@ def modestream(kind, k, iv, ctr, seg, direction, pad, bs, d):
         elif kind == "ofb":
             m = pyaes_aes.AESModeOfOperationOFB(key, ivb)
         else:
-            m = pyaes_aes.AESModeOfOperationCTR(key, pyaes_aes.Counter(int(ctr)))
+            m = _ctr_mode(key, int(ctr))
         out = _io.BytesIO()
         f = blockfeeder.decrypt_stream if direction == "dec" else blockfeeder.encrypt_stream
         import zlib
